@@ -76,8 +76,20 @@ def gen_ranges_case(rng):
             s = rng.randrange(0, max(1, nr - ext + 1))
             r = [s, s + ext]
         elif relation == "oob":
-            t = [t[0], nt + rng.randrange(1, 3)]
-            r = list(t)
+            # one bound of the target range beyond the target's size (either end, either sign); the result
+            # range selects the same number of elements, so that only the size check can reject the pair
+            which = rng.choice(["stop+", "stop+", "stop-", "start+", "start-"])
+            if which == "stop+":
+                t = [t[0], nt + rng.randrange(1, 3)]
+            elif which == "stop-":
+                t = [None if rng.random() < 0.3 else 0, -nt - rng.randrange(1, 3)]
+            elif which == "start+":
+                t = [nt + rng.randrange(1, 3), rng.choice([None, nt])]
+            else:
+                t = [-nt - rng.randrange(1, 3), t[1]]
+            ext = min(np_extent(nt, t), nr)
+            a = rng.randrange(0, nr - ext + 1)
+            r = [a, a + ext]
         else:
             r = gen_range(rng, nr, kind)
         tr[ax], rr[ax] = t, r
@@ -537,6 +549,10 @@ def predicate_fitness(case, impl):
 
 def predicate_run(case, impl):
     if "error" in impl:
+        if "Fitting ranges have different lengths" in impl.get("msg", "") or "fit range is wrong" in impl.get("msg", ""):
+            return ("C11:fit-range-equal-extent-rejected",
+                    f"target range {case['target_range']} / result range {case['result_range']} select regions of equal extent inside the target "
+                    f"but the calibration is rejected: {impl['error']} {impl['msg']}")
         return ("C11:run-fails", f"calibration failed: {impl['error']} {impl.get('msg', '')}")
     for isl, fs in enumerate(impl["champion_fitness"]):
         for a, b in zip(fs, fs[1:]):
